@@ -66,13 +66,13 @@ type world struct {
 	ver      gmsl.RoomVersion
 	impl     gmsl.IRoomVersion
 	room     string
-	other    string            // the other room (wrongroom fault)
-	otherCr  string            // ID of the other room's create event where room IDs are create event IDs
-	ids      map[int]string    // model id -> real event ID
-	byID     map[string]int    // real event ID -> model id
-	pdu      map[int]gmsl.PDU  // the event with that ID as a server holding it would have it (well signed, parsed)
-	wire     map[int][]byte    // the bytes in a response (bad signature / malformed applied); nil if missing
-	sibling  map[int]gmsl.PDU  // dup fault: another event with the same (type, state_key)
+	other    string           // the other room (wrongroom fault)
+	otherCr  string           // ID of the other room's create event where room IDs are create event IDs
+	ids      map[int]string   // model id -> real event ID
+	byID     map[string]int   // real event ID -> model id
+	pdu      map[int]gmsl.PDU // the event with that ID as a server holding it would have it (well signed, parsed)
+	wire     map[int][]byte   // the bytes in a response (bad signature / malformed applied); nil if missing
+	sibling  map[int]gmsl.PDU // dup fault: another event with the same (type, state_key)
 	rng      *rand.Rand
 	variants []string // which concrete shapes were used (for the nontrivial class)
 }
